@@ -23,9 +23,9 @@ def run(tier, seed):
     ck.add_mc(gt, "Gen_JsonTypes(for C10)")
     ck.binary = vlib.build_harness()
     rr = vlib.run_harness(ck.binary, PROP, vec, seed=seed, tier=tier, shards=4, timeout=3000)
-    os.unlink(vec)
     ck.absorb(rr)
-    ck.triage(rr.divs)
+    ck.triage(rr.divs, rerun=rr.again)
+    os.unlink(vec)
     ck.exhaustive = True
     ck.rule = ("TLC enumerates every history of %d steps over marshal / unmarshal(input, zero-copy or not) / decode / tokstring / overwrite(input) / "
                "churn with 2 lent inputs and predicts after each step which results may have changed; each history is executed on the real package "
